@@ -81,6 +81,31 @@ Theorem subscribe_replays_exactly : ∀ seen cl c k s mid fs clk,
 Proof. exact subscribe_step_spec. Qed.
 Print Assumptions subscribe_replays_exactly.
 
+(** The retained PUBLISH itself, as a whole step (Proofs/StepFacts.v): the worker writes — or, for an
+    empty payload, clears — the retained entry of the publisher's node ([after_retain]; this touches
+    no subscription and no registry: [retained_write_touches_no_subscription]), and the copies then
+    written to the live subscribers are those of [m], whose retain flag is false: the live copy is
+    not flagged, whatever the flag of the incoming packet. *)
+Theorem live_copy_is_not_flagged : ∀ seen cl c k s p dup mid clk,
+  find_conn cl c = Some k → c_closed k = false → c_sid k = Some (ss_id s) →
+  alookup (ss_id s) (n_reg (getn cl (c_node k))) = Some s →
+  quiescent cl → healthy cl → (p_qos p = 0 ∨ p_qos p = 1) →
+  let i := c_node k in
+  let m := LMsg (prefix_mp (ss_mp s) (p_topic p)) (p_payload p) (p_qos p) false dup in
+  let cl1 := after_retain cl i p (ss_mp s) dup clk in
+  Forall (λ d, 1 ≤ d) (NodeFacts.dests_of cl1 i m) →
+  ∃ stores, NodeFacts.quiet (λ x, negb (is_store x)) stores ∧
+    (step seen cl (EPublish c p dup mid clk)).2 =
+      (stores ++ (if p_qos p =? 1 then wout (cl_bad cl) c (OPubAck mid) else []) ++ dl s ++
+       flat_map (λ j, if dest_here cl1 i m j then deliveries (cl_bad cl) (app_node (getn cl1 j) m) m else []) (seq 0 (nlen cl)))%list.
+Proof. exact publish_step_spec_retained. Qed.
+Print Assumptions live_copy_is_not_flagged.
+Theorem retained_write_touches_no_subscription : ∀ cl i p mp dup clk j topic,
+  sub_by_pattern (n_d (getn (after_retain cl i p mp dup clk) j)) topic = sub_by_pattern (n_d (getn cl j)) topic
+  ∧ n_reg (getn (after_retain cl i p mp dup clk) j) = n_reg (getn cl j).
+Proof. exact after_retain_untouched. Qed.
+Print Assumptions retained_write_touches_no_subscription.
+
 (** the premises hold in a reachable state (the one before the last step of [c07_replay]) *)
 Example subscribe_premises_hold :
   let ops := [EConnect 0%nat "pub" "cp" "" "" 60 None 30;
